@@ -4,6 +4,7 @@ mod rng; mod util;
 mod big; mod ctx; mod c01; mod c02; mod c03; mod c04; mod c11; mod c05; mod c06; mod c07; mod c08; mod c09; mod c10; mod c12; mod c13; mod ser; mod c14; mod c15; mod c16; mod c17; mod c18;
 mod c19;
 mod c20;
+mod wrappers;
 
 fn main() {
     let a: Vec<String> = std::env::args().collect();
